@@ -205,7 +205,7 @@ func (e *Env) WriteEvidence(level string, cov map[string]any, assumptions []stri
 		PropertyID: e.Prop, Tier: e.Tier, Seed: int64(e.Seed), Level: level, Coverage: cov,
 		Assumptions: assumptions, WallS: time.Since(e.Start).Seconds(), Violations: e.Violations(),
 	}
-	dir := filepath.Join(e.Verif, "evidence")
+	dir := e.evidenceDir()
 	os.MkdirAll(dir, 0755)
 	b, err := json.MarshalIndent(ev, "", " ")
 	if err != nil {
@@ -216,6 +216,16 @@ func (e *Env) WriteEvidence(level string, cov map[string]any, assumptions []stri
 		fatalInconclusive("evidence: %v", err)
 	}
 	os.Rename(tmp, filepath.Join(dir, e.Prop+".json"))
+}
+
+// evidenceDir is /verif/evidence for runs against /repo; runs pointed at another tree with
+// VERIF_REPO (mutants, seeded changes) write elsewhere so that they never replace the evidence
+// of the real tree.
+func (e *Env) evidenceDir() string {
+	if e.Repo != "/repo" {
+		return filepath.Join(e.Verif, "evidence-scratch")
+	}
+	return filepath.Join(e.Verif, "evidence")
 }
 
 // distinct counts distinct keys cheaply (64-bit FNV-1a of the key; a collision
